@@ -164,3 +164,112 @@ func init() {
 		},
 	})
 }
+
+func init() {
+	registerProp(&PropSpec{
+		ID: "C02",
+		Units: func(tier string, seed int64, sh *Shared) []Unit {
+			maxM, pol := shapeTierParams(tier)
+			var units []Unit
+			add := func(src, mode, cost, st string) {
+				cfgs := "all"
+				if cost == "sym" {
+					cfgs = "ro"
+				}
+				units = append(units, Unit{"VerifC02", []string{src, mode, cost, st, cfgs}})
+			}
+			for _, src := range shapeFamily(maxM, pol, false, "BI") {
+				add(src, "v", "", "")
+				hasOp := strings.Contains(src, "(p ") || strings.Contains(src, "(q ")
+				if hasOp {
+					add(src, "v", "", "pq")
+				}
+			}
+			// symbolic costs: all-variable leaf assignment (constants carry no configurable cost)
+			for _, src := range shapeFamily(maxM, leavesVarsOnly, false, "BI") {
+				if strings.Contains(src, "and") || strings.Contains(src, "or") {
+					add(src, "v", "sym", "")
+				}
+			}
+			// wrong-typed values and special float costs on the smaller family
+			small := 1
+			if tier == "thorough" {
+				small = 2
+			}
+			for _, src := range shapeFamily(small, leavesStandard, false, "BI") {
+				add(src, "w", "", "")
+			}
+			for _, src := range shapeFamily(small, leavesVarsOnly, false, "BI") {
+				if strings.Contains(src, "and") || strings.Contains(src, "or") {
+					for _, c := range []string{"nan", "inf", "ninf", "negzero", "half", "huge", "nhuge"} {
+						add(src, "v", c, "")
+					}
+				}
+			}
+			for _, shp := range stressShapes() {
+				n := len(leafSlots(shp))
+				src := assignLeaves(shp, strings.Repeat("v", n))
+				add(src, "v", "", "")
+				if n <= 5 {
+					add(src, "v", "sym", "")
+				}
+				if n <= 6 {
+					for _, v := range leafVariants(shp, leavesStandard) {
+						if v != src {
+							add(v, "v", "", "")
+						}
+					}
+				}
+			}
+			// directive ≡ option form (concrete, exhaustive over present-true / present-false / absent)
+			dirShapes := []string{"(and (or b0 (and b1 b2)) (> i0 (+ 1 2)) b3)", "(if (and b0 true) (+ i0 (+ 1 2)) (/ i1 i2))"}
+			names := []string{"constant_folding", "reduce_nesting", "fast_evaluation", "reordering"}
+			for _, src := range dirShapes {
+				for code := 0; code < 81; code++ {
+					c := code
+					want := ""
+					var parts []string
+					for k := 0; k < 4; k++ {
+						switch c % 3 {
+						case 0:
+							want += "-"
+						case 1:
+							want += "1"
+							parts = append(parts, names[k]+": true")
+						case 2:
+							want += "0"
+							parts = append(parts, names[k]+":false")
+						}
+						c /= 3
+					}
+					d := ""
+					if len(parts) > 0 {
+						d = ";;;; " + strings.Join(parts, ", ")
+					}
+					units = append(units, Unit{"VerifC02Directive", []string{src, d, want}})
+				}
+				units = append(units, Unit{"VerifC02Directive", []string{src, ";;;; optimize: false", "0000"}})
+				units = append(units, Unit{"VerifC02Directive", []string{src, ";;;; optimize: false\n;;;; reordering: true, constant_folding: true", "1001"}})
+				units = append(units, Unit{"VerifC02Directive", []string{src, ";; plain comment\n;;;; optimize:true", "1111"}})
+			}
+			return units
+		},
+		Reach: []string{"strict-ok", "a3", "unopt-fails", "directive"},
+		Bounds: func(tier string) map[string]interface{} {
+			maxM, _ := shapeTierParams(tier)
+			return map[string]interface{}{"shapes": "all typed shapes with ≤" + itoa(maxM) + " internal nodes + jump-stress family",
+				"configurations": "all 16 optimisation subsets, compared pairwise on one symbolic binding",
+				"costs":          "symbolic integer-valued costs |c| ≤ 2^40 for up to 3 variables, p and the `variable` default; concrete NaN/±Inf/-0/0.5/±1e300",
+				"directives":     "all 3^4 present-true/present-false/absent combinations + optimize master switch on 2 shapes (concrete)"}
+		},
+		Rule: "one unit per (shape, fault mode, cost mode, stateless declaration); each unit compiles the shape under all 16 subsets; a state is one symbolic path",
+		Assumptions: []string{"symbolic costs are integer-valued doubles with |c| ≤ 2^40 (exact as SMT Int; sums stay below 2^53); non-integer/NaN/Inf costs only as concrete values",
+			"every variable is bound (property quantifier); failures come from operators and wrong-typed values"},
+		WallBudget: func(tier string) time.Duration {
+			if tier == "thorough" {
+				return 120 * time.Minute
+			}
+			return 10 * time.Minute
+		},
+	})
+}
